@@ -35,8 +35,11 @@ RULE = ('programs from the constructive grammar in vf/c18.py (assign / chained /
         'assignment, expression statements, del, return, raise[-from], if/elif/else, for over calls and displays with else, with '
         '(as / multi-item / nested), try/except/else/finally, trivial while and assert, nested def; operands: tracer and recorder '
         'calls with positional / starred / keyword / ** arguments, method calls, call results as callee and attribute base, '
-        'attributes, subscripts, slices, + - * unary compare, tuple/list/set/dict displays; lazy constructs and/or, if-expression, '
-        'chained compare, lambda, comprehension, non-trivial while/assert) x configuration family x 2-3 inputs. One evaluation = one '
+        'attributes, subscripts, slices, + - * unary compare, tuple/list/set/dict displays with * / ** unpacking entries (sources: '
+        'local mapping, call result, nested display) as argument / keyword value / starred and ** argument / subscript base / '
+        'compare operand / if test / for iterable / element, value or ** source of another display; lazy constructs and/or, '
+        'if-expression, chained compare, lambda (also with keyword-only, defaulted, *args and **kwargs parameters), comprehension, '
+        'non-trivial while/assert) x configuration family x 2-3 inputs. One evaluation = one '
         '(program, configuration) pair pushed through anf.transform and all oracle clauses. Non-trivial = the transformer accepted '
         'the program, some statement header holds >= 2 logging calls, some run logged >= 2 effects inside one statement segment '
         '(segments are delimited by mark(i) statements, present in ~40 % of the programs; the whole run otherwise), '
@@ -58,7 +61,7 @@ ASSUMPTIONS = [
 LEVEL_TEXT = ('Randomised exploration of program x configuration x input space with a differential oracle and an independent shape '
               'checker; every explored case is executed both ways. No claim beyond the cases counted.')
 LEVEL_NOTE = ('Trusted: CPython as reference semantics, the logging runtime and the constructive generator in vf/c18.py. Out of reach: '
-              'operand positions outside the listed class (decorators, default arguments, handler types, for/with targets with impure '
+              'operand positions outside the listed class (decorators, non-constant default arguments, handler types, for/with targets with impure '
               'sub-expressions, f-strings, generators), configurations whose callables inspect more than node types and the callee name.')
 
 TMP_RE = re.compile(r'^tmp_\d+$')
@@ -186,16 +189,21 @@ def make_ns():
     emit('call0')
     return f()
 
+  def callk(f):
+    emit('callk')
+    return f(k=3)
+
   def mark(i):
     emit('#%s' % _r(i))
 
   o = Obj(emit)
-  ns = {'t': t, 'rec': rec, 'cm': cm, 'cmt': cmt, 'err': err, 'call0': call0, 'mark': mark, 'o': o, 'E1': E1,
+  ns = {'t': t, 'rec': rec, 'cm': cm, 'cmt': cmt, 'err': err, 'call0': call0, 'callk': callk, 'mark': mark, 'o': o,
+        'E1': E1,
         '__builtins__': __builtins__}
   return ns, log, o
 
 
-LOGGING_CALLEES = ('t', 'rec', 'cm', 'cmt', 'err', 'call0', 'mark')
+LOGGING_CALLEES = ('t', 'rec', 'cm', 'cmt', 'err', 'call0', 'callk', 'mark')
 
 
 class _Timeout(BaseException):
@@ -818,6 +826,11 @@ def configs(draw):
 
 
 _INT_STRATS = {}
+STR_KEYS = ['k3', 'k4', 'k5']   # disjoint from the explicit keywords k1 / k2 of generated calls
+# (callee, parameter list, int-valued parameter names visible in the body); call0 calls f(), callk calls f(k=3)
+LAMBDA_FORMS = [('call0', '*, k=1', ['k']), ('call0', 'p=2, *, k=1, k2=0', ['p', 'k', 'k2']), ('call0', '*q, k=1', ['k']),
+                ('callk', '*, k', ['k']), ('callk', 'p=1, *, k', ['p', 'k']), ('callk', '*q, k, k2=2', ['k', 'k2']),
+                ('callk', 'p=1, *, k2=2, k', ['p', 'k', 'k2']), ('callk', '**kw', []), ('callk', '*, k, **kw', ['k'])]
 _HUNDRED = list(range(100))
 _DUMMY_SUB = ast.parse('q[u:v]').body[0].value
 
@@ -842,9 +855,15 @@ class Gen(object):
       self.lazy.add(kinds[draw(st.integers(0, len(kinds) - 1))])
       if draw(st.integers(0, 3)) == 0:
         self.lazy.add(kinds[draw(st.integers(0, len(kinds) - 1))])
+    elif family in ('default', 'default_explicit', 'default_plus') and draw(st.integers(0, 99)) < 15:
+      # lambdas (mostly with a trivial body, which these configurations accept and name) with non-trivial parameter lists
+      self.lazy.add('lam')
     self.markers = draw(st.integers(0, 99)) < 40
     self.keep_order_shapes = family in ('partial', 'none', 'by_parent', 'by_child') or draw(st.integers(0, 99)) < 12
     self.slices_ok = True   # F15 fixed: plain slices are handled under every configuration
+    # mapping-valued locals m (int keys) / ms (str keys), bound by plain assignments in the prelude (never lifted):
+    # sources for the ** entries of dict displays and for ** call arguments
+    self.maps = draw(st.integers(0, 99)) < 50
     self.excluded = collections.Counter()
     self.nmark = 0
     # configurations that name only some edges: lazy operands are mostly nested, so that an edge
@@ -881,7 +900,7 @@ class Gen(object):
     if d <= 0:
       return self.atom(scope)
     kinds = [('atom', 3), ('t', 8), ('rec', 3), ('meth', 2), ('attr', 2), ('sub', 2), ('slice', 1), ('bin', 4),
-             ('un', 1), ('cmp', 1), ('coll', 2), ('callres', 1)]
+             ('un', 1), ('cmp', 1), ('coll', 2), ('disp', 2), ('callres', 1)]
     for lk, w in (('bool', 4), ('ifexp', 3), ('chain', 3), ('lam', 2), ('comp', 1)):
       if lk in self.lazy:
         kinds.append((lk, w))
@@ -921,6 +940,8 @@ class Gen(object):
       return '(%s %s %s)' % (self.iexpr(d - 1, scope), self.pick(['<', '<=', '==', '!=', '>']), self.iexpr(d - 1, scope))
     if k == 'coll':
       return 'rec(%s)' % self.coll(d - 1, scope)
+    if k == 'disp':
+      return self.disp(d - 1, scope)
     if k == 'callres':
       return self.pick(['t(rec)(%s)', 't(o).m(%s)', 't(t)(%s)']) % (
           self.args(d, scope) if self.pct(60) else self.iexpr(d - 1, scope))
@@ -937,7 +958,12 @@ class Gen(object):
       return '(%s %s %s <= %s)' % (first, self.pick(['<', '>', '==']), self.atom(scope) if self.pct(50) else self.iexpr(dd, scope),
                                    self.iexpr(dd, scope))
     if k == 'lam':
-      return 'call0(lambda: %s)' % self.iexpr(dd, scope)
+      if self.pct(40):
+        return 'call0(lambda: %s)' % self.iexpr(dd, scope)
+      # parameter lists: keyword-only parameters with / without defaults (kw_defaults holds None for the latter),
+      # *args, **kwargs; defaults are constants (default-value operands are outside the listed class)
+      callee, params, new = self.pick(LAMBDA_FORMS)
+      return '%s(lambda %s: %s)' % (callee, params, self.iexpr(dd, scope + new))
     return 'rec([%s for k in [1, 2]])' % self.iexpr(dd, scope + ['k'])
 
   def args(self, d, scope):
@@ -951,14 +977,81 @@ class Gen(object):
     for kw in ['k1', 'k2'][:self.pick([0, 0, 0, 1, 1, 2])]:
       parts.append('%s=%s' % (kw, self.iexpr(d - 1, scope)))
     if self.pct(8):
-      parts.append(self.pick(["**t({'k3': 1})", "**{'k3': %s}" % self.iexpr(d - 1, scope)]))
+      form = self.pick(['t', 'disp', 'dict'] + (['name'] if self.maps else []))
+      if form == 't':
+        parts.append("**t({'k3': 1})")
+      elif form == 'disp':
+        parts.append("**{'k3': %s}" % self.iexpr(d - 1, scope))
+      elif form == 'name':
+        parts.append('**ms')
+      else:
+        parts.append('**' + self.dictdisp(d - 1, scope, keys='str'))
     return ', '.join(parts)
+
+  def mapsrc(self, d, scope, keys):
+    """A mapping-valued expression (the operand of a ** entry): local name, call result, display."""
+    form = self.weighted([('call', 3), ('disp', 2), ('nested', 1 if d > 0 else 0)] + ([('name', 4), ('tname', 1)] if self.maps else []))
+    name = 'm' if keys == 'int' else 'ms'
+    if form == 'name':
+      return name
+    if form == 'tname':
+      return 't(%s)' % name
+    if form == 'call':
+      if keys == 'int':
+        return self.pick(['t({1: 2})', 't({})', 't({2: 0, 7: 1})', 't({0: %s})' % self.atom(scope)])
+      return self.pick(["t({'k3': 1})", 't({})', "t({'k4': %s})" % self.atom(scope)])
+    if form == 'nested':
+      return self.dictdisp(d - 1, scope, keys)
+    k = self.iexpr(d, scope) if keys == 'int' else repr(self.pick(STR_KEYS))
+    return '{%s: %s}' % (k, self.iexpr(d, scope))
+
+  def dictdisp(self, d, scope, keys='int', star=35, last=None):
+    """A dict display; every entry is a ** unpacking with probability star %."""
+    ents = []
+    for _ in range(self.pick([1, 2, 2, 3])):
+      if self.pct(star):
+        ents.append('**' + self.mapsrc(d, scope, keys))
+      else:
+        k = self.iexpr(d, scope) if keys == 'int' else repr(self.pick(STR_KEYS))
+        ents.append('%s: %s' % (k, self.iexpr(d, scope)))
+    if last:
+      ents.append(last)
+    return '{%s}' % ', '.join(ents)
+
+  def disp(self, d, scope):
+    """An int/bool-valued expression holding a collection display in an operand position other than
+    'sole positional argument of rec': keyword value, starred / ** argument, method argument, subscript
+    base, compare operand, element / value / ** source of another display."""
+    form = self.weighted([('arg', 3), ('kw', 2), ('star', 2), ('dstar', 3), ('index', 3), ('in', 2), ('eq', 1), ('nest', 3)])
+    if form == 'arg':
+      return self.pick(['o.m(%s)', 'rec(0, %s)', 't(o).m(%s)', 'len(%s)']) % self.coll(d, scope)
+    if form == 'kw':
+      return self.pick(['rec(k1=%s)', 'o.m(1, k2=%s)']) % self.coll(d, scope)
+    if form == 'star':
+      return self.pick(['rec(*%s)', 'o.m(*%s)', 'rec(1, *%s)']) % self.coll(d, scope)
+    if form == 'dstar':
+      return self.pick(['rec(**%s)', 'rec(1, k1=2, **%s)', 'o.m(**%s)']) % self.dictdisp(d, scope, keys='str', star=50)
+    if form == 'index':
+      kind = self.pick(['dict', 'dict', 'list', 'tuple'])
+      if kind == 'dict':
+        return '%s[9]' % self.dictdisp(d, scope, star=50, last='9: %s' % self.iexpr(d, scope))
+      first = '*t([1, 2])' if self.pct(25) else self.iexpr(d, scope)
+      body = '%s, %s' % (first, self.iexpr(d, scope))
+      return ('[%s][%s]' if kind == 'list' else '(%s)[%s]') % (body, self.pick(['0', '1', '-1']))
+    if form == 'in':
+      return '(%s in %s)' % (self.iexpr(d, scope), self.coll(d, scope))
+    if form == 'eq':
+      return '(%s %s %s)' % (self.coll(max(d - 1, 0), scope), self.pick(['==', '!=']), self.coll(max(d - 1, 0), scope))
+    inner = self.coll(d, scope) if self.pct(50) else self.dictdisp(d, scope, star=50)
+    outer = self.pick(['[%(c)s, %(e)s]', '(%(e)s, %(c)s)', '[*%(c)s, %(e)s]', '{%(e)s: %(c)s}', '{**{%(e)s: %(c)s}}',
+                       '{%(e)s, *%(c)s}'])
+    return 'rec(%s)' % (outer % {'c': inner, 'e': self.iexpr(d, scope)})
 
   def coll(self, d, scope):
     kind = self.pick(['tuple', 'list', 'set', 'dict', 'dict'])
     n = self.pick([1, 2, 2, 3])
     if kind == 'dict':
-      return '{%s}' % ', '.join('%s: %s' % (self.iexpr(d, scope), self.iexpr(d, scope)) for _ in range(n))
+      return self.dictdisp(d, scope)
     elts = []
     for _ in range(n):
       elts.append('*t([1, 2])' if self.pct(10) else self.iexpr(d, scope))
@@ -1025,6 +1118,8 @@ class Gen(object):
       kinds.append(('assert', 3))
     if 'lam' in self.lazy and not in_def:
       kinds.append(('retlam', 1))
+    if 'lam' in self.lazy:
+      kinds.append(('lamcall', 4))
     k = self.weighted(kinds)
     if k == 'assign':
       form = self.weighted([('one', 6), ('chain', 1), ('tuple', 1), ('mixed', 1), ('coll', 1)])
@@ -1063,6 +1158,12 @@ class Gen(object):
       return self.pick(['assert %s' % self.atom(scope), "assert %s, 'm'" % self.pick(names), 'assert t(1), t(2)'])
     if k == 'retlam':
       return 'return lambda: %s' % self.expr(scope)
+    if k == 'lamcall':
+      # a lambda with a non-trivial parameter list as a call argument; the body is trivial (accepted) in ~75 % of the draws
+      callee, params, new = self.pick(LAMBDA_FORMS)
+      body = self.atom(scope + new) if self.pct(75) else self.expr(scope + new)
+      return self.pick(['%s = %%s' % self.pick(names), 'return %s', 'rec(%s, 1)', 'return t(%s), 2']) % (
+          '%s(lambda %s: %s)' % (callee, params, body))
     return 'pass'
 
   def block(self, nest, scope, names, in_loop, in_def, n=None):
@@ -1095,7 +1196,8 @@ class Gen(object):
       return out + s.split('\n')
     sub = lambda sc=scope, loop=in_loop: self.indent(self.block(nest + 1, sc, names, loop, in_def))
     if k == 'if':
-      out.append(self.accepted(lambda: 'if %s:' % self.expr(scope, 0), ' pass', 'if t(a):'))
+      out.append(self.accepted(lambda: 'if %s:' % (self.coll(self.pick([0, 1, 2]), scope) if self.pct(10) else self.expr(scope, 0)),
+                               ' pass', 'if t(a):'))
       out += sub()
       if self.pct(25):
         out.append('el' + self.accepted(lambda: 'if %s:' % self.expr(scope, 0), ' pass', 'if t(b):'))
@@ -1107,13 +1209,17 @@ class Gen(object):
     if k == 'for':
       v = 'i' if 'i' not in scope else ('j' if 'j' not in scope else 'i')
       def mk():
-        it = self.weighted([('range', 3), ('list', 3), ('tuple', 1), ('tl', 2)])
+        it = self.weighted([('range', 3), ('list', 3), ('tuple', 1), ('tl', 2), ('dict', 2), ('starred', 1)])
         if it == 'range':
           e = 'range(t(%s))' % self.pick(['0', '1', '2', '2', '3'])
         elif it == 'list':
           e = '[%s]' % ', '.join(self.expr(scope, 0) for _ in range(self.pick([1, 2, 2, 3])))
         elif it == 'tuple':
           e = '(%s, %s)' % (self.expr(scope, 0), self.expr(scope, 0))
+        elif it == 'dict':
+          e = self.dictdisp(self.pick([0, 1, 2]), scope, star=50)
+        elif it == 'starred':
+          e = self.pick(['[*t([1, 2]), %s]', '(%s, *t((3,)))', '[*[%s]]']) % self.expr(scope, 0)
         else:
           e = self.pick(['t([1, 2])', 't([])', 't((%s,))' % self.atom(scope)])
         return 'for %s in %s:' % (v, e)
@@ -1185,7 +1291,8 @@ class Gen(object):
     body = []
     while self.budget > 0:
       body.extend(self.stmt(0, ['a', 'b', 'x', 'y'], ['x', 'y'], False, False))
-    lines = ['def f(a, b):', '  x = 1', '  y = 2'] + self.indent(body) + ['  return (x, y)']
+    pre = ['  m = {0: a, 5: 2}', "  ms = {'k3': b}"] if self.maps else []
+    lines = ['def f(a, b):', '  x = 1', '  y = 2'] + pre + self.indent(body) + ['  return (x, y)']
     return '\n'.join(lines) + '\n'
 
 
@@ -1199,7 +1306,7 @@ def cases(draw, params):
   src = g.program()
   inputs = draw(st.lists(st.sampled_from(INPUTS), min_size=2, max_size=3, unique_by=lambda x: tuple(x)))
   return {'case': {'src': src, 'inputs': inputs, 'config': cj}, 'family': fam, 'excluded': dict(g.excluded),
-          'markers': g.markers, 'kept': g.keep_order_shapes}
+          'markers': g.markers, 'kept': g.keep_order_shapes, 'maps': g.maps}
 
 
 # ================================================================================================
@@ -1251,6 +1358,65 @@ def structure(tree):
             out.add('has:impure-target')
         if isinstance(t_, ast.Tuple):
           out.add('has:tuple-target')
+    if isinstance(n, ast.Dict) and any(k is None for k in n.keys):
+      out.add('has:dict-unpack')
+      if len(n.keys) > 1 and n.keys[-1] is None:
+        out.add('has:dict-unpack-after-pairs-or-other-unpack')
+      for k, v in zip(n.keys, n.values):
+        if k is None:
+          out.add('dict-unpack-source=' + ('name' if isinstance(v, ast.Name) else 'call' if isinstance(v, ast.Call) else
+                                           'display' if isinstance(v, ast.Dict) else 'other'))
+    if isinstance(n, ast.Lambda):
+      a = n.args
+      if a.kwonlyargs:
+        out.add('has:lambda-kwonly-params')
+      if any(x is None for x in a.kw_defaults):
+        out.add('has:lambda-kwonly-param-without-default')
+      if a.vararg or a.kwarg:
+        out.add('has:lambda-vararg-or-kwarg')
+    for parent, field, child in operand_edges(n):
+      if isinstance(child, _DISPLAYS) and isinstance(getattr(child, 'ctx', None) or ast.Load(), ast.Load):
+        holder = getattr(parent, field)
+        holder = holder if isinstance(holder, list) else [holder]
+        via = ''
+        for it in holder:
+          if isinstance(it, ast.Starred) and it.value is child:
+            via = '*'
+          if isinstance(it, ast.keyword) and it.value is child:
+            via = '**' if it.arg is None else 'kw='
+        if isinstance(parent, ast.Dict) and field == 'values' and parent.keys[parent.values.index(child)] is None:
+          via = '**'
+        out.add('display-at:%s.%s%s' % (type(parent).__name__, field, ':' + via if via else ''))
+  return out
+
+
+_DISPLAYS = (ast.Dict, ast.Set, ast.List, ast.Tuple)
+
+
+def _has_none_entry(n):
+  for x in ast.walk(n):
+    for f, v in ast.iter_fields(x):
+      if isinstance(v, list) and any(it is None for it in v):
+        return type(x).__name__ + '.' + f
+  return None
+
+
+def named_none_entries(tree, cj):
+  """Edges the configuration asks to be named whose child subtree has a list field with a None entry
+  (Dict.keys of a ** entry, arguments.kw_defaults of a keyword-only parameter without default): the
+  shapes whose hoisting must carry positional None placeholders along."""
+  out = set()
+  for p in ast.walk(tree):
+    for parent, field, child in operand_edges(p):
+      if _is_trivially_exempt(child):
+        continue
+      w = _has_none_entry(child)
+      if w:
+        try:
+          if asks(cj, parent, field, child):
+            out.add(w)
+        except Exception:
+          pass
   return out
 
 
@@ -1273,10 +1439,14 @@ def shard(ctx, acc):
         classes.append('kept_shape_order_unasserted:' + s)
       classes.append('temps=%s' % ('0' if not info['ntemps'] else '1-4' if info['ntemps'] < 5 else '5-19' if info['ntemps'] < 20 else '20+'))
       classes.extend(sorted(structure(tree0)))
+      for w in sorted(named_none_entries(tree0, case['config'])):
+        classes.append('named_subtree_with_None_list_entry:' + w)
     for k in info['lazy']:
       classes.append('lazy:' + k + (':accepted' if info['accepted'] else ':rejected'))
     if g['markers']:
       classes.append('statement_markers')
+    if g.get('maps'):
+      classes.append('mapping_locals_in_prelude')
     if g['family'] in ('partial', 'default_plus', 'by_parent', 'by_child') and info['accepted']:
       classes.append('%s_config_%s' % (g['family'], 'names_something' if info['ntemps'] else 'names_nothing_here'))
     if info.get('generator_slip'):
